@@ -20,7 +20,7 @@ import gen_tables
 import imsc_common as IC
 
 PROP = "C04"
-TARGETS = ["Model/ImscCases.vo", "Proofs/C04/TimeSyntax.vo", "Proofs/C04/Interval.vo"]
+TARGETS = ["Model/ImscCases.vo", "Proofs/C04/TimeSyntax.vo", "Proofs/C04/Interval.vo", "Proofs/C04/Total.vo", "Proofs/C04/Params.vo", "Proofs/C04/Tables.vo"]
 HEADER = ("From TT Require Import Base.Prelude Base.ImscXml Model.ImscTime Model.ImscTiming Spec.TtmlTimingSpec Model.ImscCases.\n"
           "From Coq Require Import QArith.\nLocal Open Scope Z_scope.\n")
 GRAMMAR = re.compile(r"(\d+(\.\d+)?(h|m|s|ms|f|t)|\d{2,}:\d\d:\d\d(\.\d+)?|\d{2,}:\d\d:\d\d:\d{2,})\Z", re.ASCII)
